@@ -42,7 +42,9 @@ TreeWellFormed ==
                       /\ Tree[f].c0 > 0 /\ Tree[f].c1 > 0 /\ Tree[f].photo = HasPhoto /\ Tree[f].wide \in BOOLEAN
 
 (* two standard instances: the model-checking tree (3 plates, one with two MJDs, pixel   *)
-(* counts 5,7,7,4) and the larger tree on which recorded calls are judged.               *)
+(* counts 5,7,7,4, two wavelength solutions: 266 and the first night of 3586 share one,  *)
+(* the second night of 3586 and 7000 the other) and the larger tree on which recorded    *)
+(* calls are judged.                                                                      *)
 (* wide / word make the table columns of the files differ in the storage they NEED: the  *)
 (* string columns of file f hold word \o digits (so their width differs from file to     *)
 (* file, as with files written with "the longest value on this plate"), and the numeric  *)
@@ -52,13 +54,13 @@ TreeWellFormed ==
 F(plate, mjd, nfib, npix, c0, c1, photo, wide, word) ==
   [plate |-> plate, mjd |-> mjd, nfib |-> nfib, npix |-> npix, c0 |-> c0, c1 |-> c1, photo |-> photo,
    wide |-> wide, word |-> word]
-StdTree4 == << F(7000, 55181, 5, 4, 4096, 1, FALSE, TRUE, "SPECTROPHOTO_STD_"), F(3586, 56500, 4, 7, 3840, 2, FALSE, TRUE, "GALAXY_"),
-               F(3586, 55181, 4, 7, 3968, 3, FALSE, FALSE, "QSO"), F(266, 51602, 640, 5, 3712, 1, FALSE, FALSE, "") >>
-StdTree6 == << F(4000, 55181, 9, 8, 3600, 1, TRUE, TRUE, "GALAXY_"),  F(266, 55300, 6, 7, 3840, 2, TRUE, TRUE, "SKY"),
+StdTree4 == << F(7000, 55181, 5, 4, 3840, 2, FALSE, TRUE, "SPECTROPHOTO_STD_"), F(3586, 56500, 4, 7, 3840, 2, FALSE, TRUE, "GALAXY_"),
+               F(3586, 55181, 4, 7, 3712, 1, FALSE, FALSE, "QSO"), F(266, 51602, 640, 5, 3712, 1, FALSE, FALSE, "") >>
+StdTree6 == << F(4000, 55181, 9, 8, 3600, 1, TRUE, TRUE, "GALAXY_"),  F(266, 55300, 6, 7, 3712, 1, TRUE, TRUE, "SKY"),
                F(9999, 57001, 7, 1, 3700, 5, TRUE, FALSE, "REDDEN_STD_"),  F(3586, 55181, 8, 7, 3968, 3, TRUE, FALSE, "Q"),
-               F(266, 51602, 6, 5, 3712, 1, TRUE, FALSE, ""),   F(1234, 52000, 12, 6, 3650, 4, TRUE, TRUE, "SPECTROPHOTO_STD_"),
-               F(7000, 54000, 5, 4, 4096, 1, TRUE, FALSE, "STAR_"),  F(3586, 55200, 8, 3, 3900, 2, TRUE, TRUE, "STARFORMING_BROADLINE_"),
-               F(9999, 51602, 7, 8, 3800, 3, TRUE, TRUE, "AGN") >>
+               F(266, 51602, 6, 5, 3712, 1, TRUE, FALSE, ""),   F(1234, 52000, 12, 6, 4096, 4, TRUE, TRUE, "SPECTROPHOTO_STD_"),
+               F(7000, 54000, 5, 4, 4096, 1, TRUE, FALSE, "STAR_"),  F(3586, 55200, 8, 3, 3968, 3, TRUE, TRUE, "STARFORMING_BROADLINE_"),
+               F(9999, 51602, 7, 8, 3600, 1, TRUE, TRUE, "AGN") >>
 (* The order relation between plate numbers and MJDs is a dimension of the tree: both      *)
 (* standard trees contain a pair of plates whose MJDs DEcrease while the plate numbers     *)
 (* increase, two different plates observed on the same MJD, and a plate whose MJDs         *)
@@ -70,6 +72,28 @@ OrderRelationsCovered ==
   /\ \E f, g, h \in Files : /\ Tree[f].plate = Tree[g].plate /\ Tree[h].plate # Tree[f].plate
                              /\ Tree[f].mjd <= Tree[h].mjd /\ Tree[h].mjd < Tree[g].mjd
   /\ \E f, g \in Files : Tree[f].plate = Tree[g].plate /\ Tree[f].mjd # Tree[g].mjd
+
+(* The relation between the wavelength solutions (COEFF0, COEFF1) and the pixel counts of  *)
+(* two files is a dimension of the tree as well: a survey re-observes a plate with the same *)
+(* solution and another pixel count, and different plates share a pixel count but not the   *)
+(* solution.  Whatever was read before, every row's wavelengths are those of ITS file over  *)
+(* ITS pixel count (LoglamAffine), so both standard trees contain, in the (plate, MJD)      *)
+(* order in which files are visited, a file followed by a LONGER one with the same solution,*)
+(* a file followed by a SHORTER one with the same solution, two files of equal pixel count  *)
+(* with different solutions, and files differing in both.  The larger tree also has equal   *)
+(* solution with equal pixel count, equal COEFF0 with different COEFF1 and vice versa.      *)
+SameSol(f, g) == Tree[f].c0 = Tree[g].c0 /\ Tree[f].c1 = Tree[g].c1
+Before(f, g) == Tree[f].plate < Tree[g].plate \/ (Tree[f].plate = Tree[g].plate /\ Tree[f].mjd < Tree[g].mjd)
+SolutionRelationsCovered ==
+  /\ \E f, g \in Files : Before(f, g) /\ SameSol(f, g) /\ Tree[f].npix < Tree[g].npix
+  /\ \E f, g \in Files : Before(f, g) /\ SameSol(f, g) /\ Tree[f].npix > Tree[g].npix
+  /\ \E f, g \in Files : f # g /\ ~SameSol(f, g) /\ Tree[f].npix = Tree[g].npix
+  /\ \E f, g \in Files : ~SameSol(f, g) /\ Tree[f].npix # Tree[g].npix
+SolutionRelationsRich ==
+  /\ SolutionRelationsCovered
+  /\ \E f, g \in Files : f # g /\ SameSol(f, g) /\ Tree[f].npix = Tree[g].npix
+  /\ \E f, g \in Files : Tree[f].c0 = Tree[g].c0 /\ Tree[f].c1 # Tree[g].c1
+  /\ \E f, g \in Files : Tree[f].c0 # Tree[g].c0 /\ Tree[f].c1 = Tree[g].c1
 
 (* ------------------------- synthetic file contents ------------------------- *)
 Code(f, fib, h, x) == f * 1000000 + fib * 1000 + h * 100 + x
